@@ -27,7 +27,7 @@ def known_sharedseg(case, impl, reason):
     return case.endswith("TAG=cmdonly-sharedseg") and reason.count("C19") == 1 and "over-long line was not answered 500" in reason
 
 
-KNOWN = {"limiter_exempts_line_prefix_read_with_payload": known_sharedseg}
+KNOWN = {}      # the shared-segment finding was repaired (known_findings.json, ebe7440): if it returns it is a violation
 
 
 def nontrivial(case, ans):
@@ -119,6 +119,24 @@ def _groups0(tier, rng):
                 f = list(base); f[3] = hx(data[:off]) + "," + hx(data[off:cut]) + "," + hx(data[cut:]) + ";eof"
                 hist.append("\t".join(f) + "\tTAG=cmdonly")
             hist.append(c.case(seg="one") + "\tTAG=cmdonly")
+    # the counter after a chunk: the beginning of an LF-free payload line arrives in the segment of its BDAT command (counted), the rest
+    # while the limit is lifted (not counted); when the limit comes back the count must not be carried over to the next command line:
+    # every line of the input — payload lines included — is within the limit, none may be refused for its length
+    for lim in (64, 2000):
+        for k in (15, lim // 2):
+            for nxt in (b"NOOP" + b" " * (lim - 30) + b"\r\n", b"BDAT 0 LAST\r\n", b"RSET\r\n"):
+                for lm in (0, 1):
+                    payload = b"x" * (lim - k) + b"\n"
+                    c = g.Conv(dict(maxline=lim, lmtp=lm))
+                    c.add((b"LHLO" if lm else b"EHLO") + b" x\r\n", NS="ok"); c.add(b"MAIL FROM:<s@x>\r\n", MAIL="ok"); c.add(b"RCPT TO:<r@x>\r\n", RCPT="ok")
+                    c.add(b"BDAT %d\r\n" % len(payload) + payload, DATA=g.ddec(ret="prop"))
+                    c.add(nxt); c.add(b"NOOP\r\n")
+                    f = c.case(seg="line").split("\t")
+                    pre = b"".join(c.lines[:3]); cmd = b"BDAT %d\r\n" % len(payload)
+                    for cut in (len(payload) - 1, len(payload) // 2):
+                        f2 = list(f)
+                        f2[3] = ",".join([hx(pre), hx(cmd + payload[:cut]), hx(payload[cut:]), hx(nxt), hx(b"NOOP\r\n")]) + ";eof"
+                        hist.append("\t".join(f2) + "\tTAG=cmdonly")
     for lim in (40, 2000):
         for total in (lim * 3, 9000):
             c = g.Conv(dict(maxline=lim, debug=rng.choice([0, 1])))
